@@ -1,5 +1,6 @@
 import St4sd.Model.Repl
 import St4sd.Model.ReplVars
+import St4sd.Model.ReplConf
 import St4sd.Lemmas.C03Text
 /-!
 # C03 — Replication expands a workflow without changing its dataflow
@@ -21,6 +22,13 @@ topological order, by induction over that order (`go_inv`).
   through a variable is resolved in the scope chain of the component itself (own variables over the
   variables of its stage over the global ones), whatever the other components of the workflow define
   for themselves and in whatever order the components are processed;
+* `copy_knows_its_index`, `copy_keeps_other_variables`, `expand_vars`, `expanded_copy_knows_its_index` — the
+  component-level variables of copy `i` are those of the component with `replica := i`: whatever the
+  component itself, its stage or the global scope define for `replica`, copy `i` sees `replica = i`; every
+  other variable, and every variable of a component that is not replicated, is unchanged;
+* `run_orig`, `reparametrised_equals_fresh`, `history_irrelevant`, `user_variable_chain` — the document a
+  configuration object replicates after any history of (re-)parametrisations is the loaded document patched
+  with the user variables of the CURRENT parametrisation (the same as a freshly constructed configuration);
 * `text_refines_graph_partial` — for the repaired code the textual rewriting of a `references` entry of a
   copy equals the rendering of the graph-level rewriting, under two decidable side conditions (see there).
 -/
@@ -725,5 +733,215 @@ example : (String.ofList (replicaText dEx cEx 1 (render rA)), String.ofList (rep
 /-- the aggregator's strings: copies in index order, paths repeated, foreign tokens untouched -/
 example : String.ofList (aggText dEx { cEx with agg := true } 2 "A:ref/x.txt BA:ref data/A:ref".toList) =
     "stage0.A0:ref/x.txt stage0.A1:ref/x.txt BA:ref data/A:ref" := by decide
+
+/-! ## every copy knows its own replica index -/
+
+theorem copyVars_replica (own : Vars) (i : Nat) :
+    lookup (copyVars own i) replicaKey = some (natToDigits i) := by
+  simp [copyVars, lookup_override, lookup]
+
+theorem copyVars_other (own : Vars) (i : Nat) (k : S) (hk : k ≠ replicaKey) :
+    lookup (copyVars own i) k = lookup own k := by
+  have : (replicaKey == k) = false := by
+    simp only [beq_eq_false_iff_ne, ne_eq]
+    exact fun h => hk h.symm
+  simp [copyVars, lookup_override, lookup, this]
+
+/-- **Copy `i` sees `replica = i`**, whatever the component itself (`own`), its stage (`s`) or the global
+scope (`g`) define for `replica`: the injected index wins over all of them. -/
+theorem copy_knows_its_index (g s own : Vars) (i : Nat) :
+    lookup (visible g s (copyVars own i)) replicaKey = some (natToDigits i) := by
+  rw [visible_lookup, copyVars_replica]
+  rfl
+
+/-- every other variable is resolved for the copy as for the component -/
+theorem copy_keeps_other_variables (g s own : Vars) (i : Nat) (k : S) (hk : k ≠ replicaKey) :
+    lookup (visible g s (copyVars own i)) k = lookup (visible g s own) k := by
+  simp [visible_lookup, copyVars_other own i k hk]
+
+/-- Everything outside the replicated region (aggregators included) keeps its variables. -/
+theorem pieceVars_outside (c : Comp) (own : Vars) (p : Option Nat)
+    (h : c.agg = true ∨ p = none ∨ p = some 0) : pieceVars c own p = [own] := by
+  unfold pieceVars
+  rcases h with h | h | h
+  · simp [h]
+  · subst h; simp
+  · subst h; simp
+
+/-- the emitted component `o` with component-level variables `v` stems from component `c` with own
+variables `own`: it is copy `i` (suffix `i`, `replica = i`) carrying `own` with `replica := i`, or the single
+instance of `c` carrying `own` unchanged -/
+def VarsOf (c : Comp) (own : Vars) (o : Comp) (v : Vars) : Prop :=
+  o.stage = c.stage ∧
+    ((∃ i, o.replica = some i ∧ o.name = c.name ++ natToDigits i ∧ v = copyVars own i) ∨
+     (o.replica = c.replica ∧ o.name = c.name ∧ v = own))
+
+private theorem zip_map_map {α β γ : Type} (f : α → β) (g : α → γ) (l : List α) :
+    (l.map f).zip (l.map g) = l.map fun x => (f x, g x) := by
+  induction l with
+  | nil => rfl
+  | cons x l ih => simp [ih]
+
+private theorem piece_varsOf (d : Done) (c : Comp) (own : Vars) (p : Option Nat) :
+    (pieceVars c own p).length = (piece d c p).length ∧
+    ∀ q ∈ (piece d c p).zip (pieceVars c own p), VarsOf c own q.1 q.2 := by
+  unfold piece pieceVars
+  by_cases ha : c.agg = true
+  · simp only [ha, if_true, List.length_singleton, List.zip_cons_cons, List.zip_nil_right, List.mem_singleton,
+      true_and]
+    rintro q rfl
+    exact ⟨rfl, Or.inr ⟨rfl, rfl, rfl⟩⟩
+  · have ha' : c.agg = false := by simpa using ha
+    by_cases hn : 0 < p.getD 0
+    · simp only [ha', Bool.false_eq_true, if_false, hn, if_true, List.length_map, true_and]
+      intro q hq
+      rw [zip_map_map] at hq
+      obtain ⟨i, _, rfl⟩ := List.mem_map.mp hq
+      exact ⟨rfl, Or.inl ⟨i, rfl, rfl, rfl⟩⟩
+    · simp only [ha', Bool.false_eq_true, if_false, hn, List.length_singleton, List.zip_cons_cons,
+        List.zip_nil_right, List.mem_singleton, true_and]
+      rintro q rfl
+      exact ⟨rfl, Or.inr ⟨rfl, rfl, rfl⟩⟩
+
+/-- **The variables of the expansion.**  The pass that emits the component-level variables (`goVars`)
+succeeds whenever the expansion (`go`) does, emits one variable scope per emitted component, and every
+emitted component `o` with scope `v` stems (`VarsOf`) from a component of the workflow. -/
+theorem expand_vars (cs : List (Comp × Vars)) (d : Done) (out : List Comp)
+    (h : go [] [] (cs.map (·.1)) = .ok (d, out)) :
+    ∃ vs, goVars [] [] cs = some vs ∧ vs.length = out.length ∧
+      ∀ q ∈ out.zip vs, ∃ cv ∈ cs, VarsOf cv.1 cv.2 q.1 q.2 := by
+  have key : ∀ (rest : List (Comp × Vars)) (d0 : Done) (out0 : List Comp) (v0 : List Vars)
+      (d' : Done) (out' : List Comp), (∀ cv ∈ rest, cv ∈ cs) →
+      go d0 out0 (rest.map (·.1)) = .ok (d', out') → v0.length = out0.length →
+      (∀ q ∈ out0.zip v0, ∃ cv ∈ cs, VarsOf cv.1 cv.2 q.1 q.2) →
+      ∃ vs, goVars d0 v0 rest = some vs ∧ vs.length = out'.length ∧
+        ∀ q ∈ out'.zip vs, ∃ cv ∈ cs, VarsOf cv.1 cv.2 q.1 q.2 := by
+    intro rest
+    induction rest with
+    | nil =>
+      intro d0 out0 v0 d' out' _ hg hl hq
+      simp only [List.map_nil, go, Except.ok.injEq, Prod.mk.injEq] at hg
+      obtain ⟨-, rfl⟩ := hg
+      exact ⟨v0, rfl, hl, hq⟩
+    | cons cv rest ih =>
+      intro d0 out0 v0 d' out' hsub hg hl hq
+      obtain ⟨c, own⟩ := cv
+      simp only [List.map_cons, go] at hg
+      split at hg
+      · split at hg
+        · rename_i p hp
+          simp only [goVars, hp]
+          obtain ⟨hlen, hpv⟩ := piece_varsOf d0 c own p
+          refine ih _ _ _ _ _ (fun x hx => hsub x (List.mem_cons_of_mem _ hx)) hg (by simp [hl, hlen]) ?_
+          intro q hq'
+          rw [List.zip_append hl.symm] at hq'
+          rcases List.mem_append.mp hq' with hq' | hq'
+          · exact hq q hq'
+          · exact ⟨(c, own), hsub _ (List.mem_cons_self ..), hpv q hq'⟩
+        · cases hg
+      · cases hg
+  exact key cs [] [] [] d out (fun _ h => h) h rfl (by simp)
+
+/-- **Each copy knows its own replica index**, stated on the expansion: for a workflow whose components
+are not themselves copies, every emitted copy with index `i` resolves `replica` to `i` — whatever its own
+variables, the variables `s` of its stage and the global variables `g` say about `replica` — and every
+emitted component that is not a copy carries exactly the variables of the component it stems from. -/
+theorem expanded_copy_knows_its_index (cs : List (Comp × Vars)) (d : Done) (out : List Comp)
+    (h : go [] [] (cs.map (·.1)) = .ok (d, out)) (hin : ∀ cv ∈ cs, cv.1.replica = none) :
+    ∃ vs, goVars [] [] cs = some vs ∧ vs.length = out.length ∧
+      ∀ q ∈ out.zip vs,
+        (∀ i, q.1.replica = some i → ∀ g s, lookup (visible g s q.2) replicaKey = some (natToDigits i)) ∧
+        (q.1.replica = none → ∃ cv ∈ cs, q.1.stage = cv.1.stage ∧ q.1.name = cv.1.name ∧ q.2 = cv.2) := by
+  obtain ⟨vs, h1, h2, h3⟩ := expand_vars cs d out h
+  refine ⟨vs, h1, h2, ?_⟩
+  intro q hq
+  obtain ⟨cv, hcv, hst, hor⟩ := h3 q hq
+  constructor
+  · intro i hi g s
+    rcases hor with ⟨j, hj, _, hv⟩ | ⟨hr, _, _⟩
+    · rw [hj] at hi
+      cases hi
+      rw [hv]
+      exact copy_knows_its_index g s cv.2 _
+    · rw [hr, hin cv hcv] at hi
+      cases hi
+  · intro hnone
+    rcases hor with ⟨j, hj, _, _⟩ | ⟨_, hn, hv⟩
+    · rw [hj] at hnone
+      cases hnone
+    · exact ⟨cv, hcv, hst, hn, hv⟩
+
+/-- `sample` asks for 2 replicas and defines `replica: 7` itself; the stage says `replica: 8`, the global
+scope `replica: 9`: copy 0 sees 0, copy 1 sees 1; `n` is kept -/
+example : ((goVars [] []
+      [({ stage := 0, name := "sample".toList, refs := [], repl := some 2, agg := false },
+        [("replica".toList, "7".toList), ("n".toList, "2".toList)])]).getD []).map
+      (fun v => ((lookup (visible [("replica".toList, "9".toList)] [("replica".toList, "8".toList)] v) replicaKey).map
+                  String.ofList,
+                 (lookup v "n".toList).map String.ofList)) =
+    [(some "0", some "2"), (some "1", some "2")] := by decide
+
+/-! ## the configuration object: which document is replicated after a history of parametrisations -/
+
+/-- the loaded document is never touched by a parametrisation -/
+theorem run_orig (c : Conf) (h : List (UserVars × Bool)) : (run c h).orig = c.orig := by
+  unfold run
+  induction h generalizing c with
+  | nil => rfl
+  | cons s h ih =>
+    simp only [List.foldl_cons]
+    rw [ih]
+    rfl
+
+private theorem run_append_one (c : Conf) (h : List (UserVars × Bool)) (s : UserVars × Bool) :
+    run c (h ++ [s]) = parametrize (run c h) s.1 s.2 := by
+  simp [run, List.foldl_append]
+
+/-- **A re-parametrised configuration is the freshly constructed one**: after ANY history of
+parametrisations (with any user variables, primitive or not) on one configuration object, parametrising
+with user variables `u` leaves the object with the `_concrete` and `_unreplicated` documents that
+constructing a new configuration of the loaded document with `u` gives. -/
+theorem reparametrised_equals_fresh (d : Doc) (u0 : UserVars) (p0 : Bool) (h : List (UserVars × Bool))
+    (u : UserVars) (p : Bool) :
+    (run (construct d u0 p0) (h ++ [(u, p)])).concrete = (construct d u p).concrete ∧
+    (run (construct d u0 p0) (h ++ [(u, p)])).unrepl = (construct d u p).unrepl := by
+  rw [run_append_one]
+  have ho : (run (construct d u0 p0) h).orig = d := by
+    rw [run_orig]
+    rfl
+  constructor
+  · simp only [parametrize]
+    rw [ho]
+    rfl
+  · simp only [parametrize]
+    rw [ho]
+    rfl
+
+/-- **What is replicated is the loaded document patched with the user variables of the current
+parametrisation** — not those of an earlier one, not the package defaults. -/
+theorem history_irrelevant (d : Doc) (u0 : UserVars) (p0 : Bool) (h : List (UserVars × Bool)) (u : UserVars) :
+    (run (construct d u0 p0) (h ++ [(u, false)])).concrete =
+      .replicated (expandRaw d.g (patchStage u d.st) d.wf) := by
+  rw [(reparametrised_equals_fresh d u0 p0 h u false).1]
+  rfl
+
+/-- the scope chain of a component of stage `i` in the patched document: its own variables, then the user
+variables for its stage, then the global user variables, then the variables the package gives the stage,
+then the global variables of the package -/
+theorem user_variable_chain (u : UserVars) (d : Doc) (i : Nat) (own : Vars) (k : S) :
+    lookup (visible d.g (patchStage u d.st i) own) k =
+      (lookup own k).or ((lookup (stageVars u.stages i) k).or ((lookup u.global k).or
+        ((lookup (d.st i) k).or (lookup d.g k)))) := by
+  simp only [visible_lookup, patchStage, lookup_override]
+  cases lookup own k <;> cases lookup (stageVars u.stages i) k <;> cases lookup u.global k <;>
+    cases lookup (d.st i) k <;> rfl
+
+/-- the package says `numberPoints: 4`; the configuration is loaded without user variables (primitive),
+parametrised with `numberPoints: 1` and then with `numberPoints: 3`: three copies -/
+example : (match (run (construct { g := gEx, st := fun _ => [], wf := [rawCalibrate, rawSimulate] } ⟨[], []⟩ true)
+      [(⟨[("numberPoints".toList, "1".toList)], []⟩, false),
+       (⟨[("numberPoints".toList, "3".toList)], []⟩, false)]).concrete with
+    | .replicated (.ok out) => out.map fun o => String.ofList o.name
+    | _ => []) = ["calibrate", "simulate0", "simulate1", "simulate2"] := by decide
 
 end St4sd.C03
